@@ -1,7 +1,8 @@
 (* Entry point of the extracted model: one request s-expression in, one answer out. *)
 From Coq Require Import List NArith ZArith Bool.
 From Coq.Strings Require Import Byte.
-From Model Require Import Bytes Sx Utf8 Frame Parser FrameParser Response Conn.
+From Coq Require Import QArith.
+From Model Require Import Bytes Sx Utf8 Frame Parser FrameParser Response Conn Persist.
 Import ListNotations.
 Open Scope N_scope.
 
@@ -100,10 +101,33 @@ Definition cmd_run (args : list sx) : sx :=
   let c := run cf (table_strategy tbl) c0 cn steps in
   L (map sx_titem (rev (k_tr c))).
 
+(* ---------- persist ---------- *)
+(* rationals travel as (num den) with num >= 0 *)
+Definition un_Q (s : sx) : Q :=
+  match un_L s with
+  | [n; d] => Qmake (un_Z n) (match un_N d with Npos p => p | N0 => 1%positive end)
+  | _ => 0%Q
+  end.
+Definition sx_Q (q : Q) : sx := let r := Qred q in L [sx_Z (Qnum r); A (Npos (Qden r))].
+Definition sx_pitem (p : pitem) : sx :=
+  match p with
+  | PEvent no i r => L [A 0; sx_nat no; sx_nat i; sx_bool r]
+  | PBackOff d => L [A 1; sx_Q d]
+  | PConnect no => L [A 2; sx_nat no]
+  end.
+(* (20 min max attempts draws exits) *)
+Definition cmd_persist (args : list sx) : sx :=
+  let '(items, running) :=
+    persist (un_Q (nth_sx args 0)) (un_Q (nth_sx args 1))
+            (map (fun a => map un_bool (un_L a)) (un_L (nth_sx args 2)))
+            (map un_Q (un_L (nth_sx args 3))) (map un_bool (un_L (nth_sx args 4))) 0 0 in
+  L [L (map sx_pitem items); sx_bool running].
+
 Definition run_sx (req : sx) : sx :=
   match req with
   | L (A 1 :: args) => cmd_utf8 args
   | L (A 2 :: args) => cmd_utf8_decode args
   | L (A 10 :: args) => cmd_run args
+  | L (A 20 :: args) => cmd_persist args
   | _ => L [A 998]
   end.
